@@ -72,6 +72,11 @@ PROGRAMS = [
     ("str-scalar-and-array-same-name", '10 DIM NA$ ( 5 ) : NA$ = "X" : NA$ ( 1 ) = NA$'),
     ("dim-then-use-later", "10 DIM A ( 5 )\n20 A ( 1 ) = 2\n30 B ( 3 ) = A ( 1 )"),
     ("joystk", "10 Z = JOYSTK ( 0 )"),
+    # names that occur only in a PRINT item that starts with a sign or NOT
+    ("print-neg-implicit-array", "10 PRINT - Q ( 2 )"),
+    ("print-neg-len", "10 PRINT - LEN ( W$ )"),
+    ("print-not-and-neg", "10 PRINT NOT Q ( 1 ) ; - LEN ( V$ ( 2 ) )"),
+    ("print-at-neg", "10 PRINT @ 5 , - Q ( 3 ) ; - ASC ( U$ )"),
     # the DIM statement stands later in the text than the first reference (subroutine that sets things up, run first)
     ("dim-in-subroutine", "10 GOSUB 100\n20 A ( 15 ) = 1\n30 END\n100 DIM A ( 20 ) : RETURN"),
     ("dim-str-in-subroutine", '10 GOSUB 100\n20 F$ ( 3 ) = "X"\n30 END\n100 DIM F$ ( 7 ) : RETURN'),
